@@ -172,7 +172,7 @@ prop('C12', COMMON +
      'exactly one push per processed item after its future completed, closed only at end of input, end reported only when empty and closed (ORD-C12); wakers are woken outside the lock, no guard lives across an await (BL, AW).',
      ['consumer and back-pressure handshakes (LW1, LW2)', 'buffer discipline (QD-pending)', 'one output per input, in order, then end (ORD-C12)', 'wakes outside the lock, no guard across await (BL, AW)'],
      ['"for every buffer depth and interleaving" as executions', "depth 0 is outside the property's range"],
-     [(RW.lw, None, ['|notify#', '|notify<-', 'backpressure_release_notify', 'floor:notify:', 'floor:backpressure']), (RW.lw_register, None, ['PipeStream']), (RQ.qd_pending, None), (RO.c12, None), (RO.c11_sleep, None, ['pipe|']), (RL.bl, None), (RL.aw, None)])
+     [(RW.lw, None, ['|notify#', '|notify<-', 'backpressure_release_notify', 'floor:notify:', 'floor:backpressure']), (RW.lw_register, None, ['PipeStream']), (RQ.qd_pending, None), (RO.c12, None), (RO.c11_sleep, None, ['pipe|']), (RO.c11, None, ['PipeWaker']), (RL.bl, None), (RL.aw, None)])
 
 prop('C13', COMMON +
      'Decided (ORD-C13): the resumer\'s sender and the future the suspending job waits on are the two ends of one channel, the resumer is handed out inside the job before waiting, the suspension is an ordinary future_desync job (so every token and ordering rule applies to it), '
